@@ -1,5 +1,5 @@
 """C06 - vehicles move continuously and no faster than the road allows."""
-from hivemon.checks.common import BUILTIN, run_check, shipped_case, std_summary, trace_case
+from hivemon.checks.common import hostile_stack, BUILTIN, run_check, shipped_case, std_summary, trace_case
 
 PROFILE = {
     "n_vehicles": (2, 10),
@@ -32,6 +32,10 @@ def build_cases(tier, seed):
             # human drivers whose battery is full when the shift ends and who cannot charge at home: the built-in
             # driver logic sends them to a station, where they arrive with nothing to charge
             prof.update({"p_human": 0.8, "p_home_station": 0.2, "soc": [1.0, 1.0, 0.9995, 0.9], "p_ice": 0.0, "spread": 0.004, "network": "euclidean", "dts": [7, 30, 45, 60], "custom_mech": 0.0, "n_vehicles": (6, 12), "starts": [0, 1000, 3600, 43200, 86399, 30000, 60000]})
+        if i % 6 == 4:
+            # a client whose instructions are often unusable (wrong plug, no access): some vehicle's update fails step after
+            # step while the others travel - the arrival clause is not judged in these runs, everything else is
+            ctrl = hostile_stack(p=0.15, builtin=True)
         cases.append(trace_case("C06", i, s, prof, ctrl, steps, ["C06"]))
     if tier == "thorough":
         for w in ("denver_downtown/denver_demo.yaml", "denver_downtown/denver_demo_fleets.yaml", "denver_downtown/denver_demo_constrained_charging.yaml"):
